@@ -427,6 +427,121 @@ theorem prev_sibling_spec_general (lang : Lang) (fuel : Nat) (root self P : Node
   simpa [resolveEarlier] using this
 
 
+/-! ### For a NON-EMPTY `self` the position hypothesis holds by the layout -/
+
+mutual
+  /-- Everything that ends strictly before `self` ends is passed over. -/
+  theorem passIn_of_lt (fuel : Nat) (self : NodeRef) : ∀ (t : Tree) (st : Nat), Sized t → st + t.data.size.bytes < self.endByte →
+      passIn fuel self t st = true
+    | .mk d kids, st, hs, h => by
+      unfold passIn
+      unfold Sized at hs
+      simp only [data_mk] at h
+      simp only [Bool.and_eq_true]
+      refine ⟨by simp [posPass, h], ?_⟩
+      cases kids with
+      | nil => unfold passInL; rfl
+      | cons c rest =>
+        have hsz := (hs.1 (by simp)).2
+        have := passInL_of_lt fuel self (c :: rest) st 0 hs.2 (by
+          unfold layEnd
+          simp only [Nat.lt_irrefl, if_false, gt_iff_lt]
+          rw [layEnd_pos _ _ _ (by omega)]
+          rw [hsz, kidsSize, restSize_bytes] at h
+          omega)
+        simpa using this
+  theorem passInL_of_lt (fuel : Nat) (self : NodeRef) : ∀ (kids : List Tree) (pos k : Nat), SizedL kids →
+      layEnd kids pos k < self.endByte → passInL fuel self kids pos (decide (k = 0)) = true
+    | [], _, _, _, _ => by unfold passInL; rfl
+    | c :: rest, pos, k, hs, h => by
+      unfold SizedL at hs
+      unfold layEnd at h
+      unfold passInL
+      have hmono := layEnd_ge rest ((if k > 0 then pos + c.data.padding.bytes else pos) + c.data.size.bytes) (k + 1)
+      have hst : (if decide (k = 0) = true then pos else pos + c.data.padding.bytes) = (if k > 0 then pos + c.data.padding.bytes else pos) := by
+        by_cases hk : k = 0
+        · subst hk; simp
+        · have : k > 0 := by omega
+          simp [hk, this]
+      simp only [hst, Bool.and_eq_true]
+      refine ⟨passIn_of_lt fuel self c _ hs.1 (by omega), ?_⟩
+      have := passInL_of_lt fuel self rest ((if k > 0 then pos + c.data.padding.bytes else pos) + c.data.size.bytes) (k + 1) hs.2 h
+      simpa using this
+end
+
+theorem sizedL_take : ∀ (kids : List Tree) (j : Nat), SizedL kids → SizedL (kids.take j)
+  | _, 0, _ => by simp [SizedL]
+  | [], _ + 1, h => by simpa using h
+  | c :: rest, j + 1, h => by
+    unfold SizedL at h
+    simp only [List.take_succ_cons]
+    unfold SizedL
+    exact ⟨h.1, sizedL_take rest j h.2⟩
+
+/-- End of the layout of the first `j` children = at most the start of child `j`. -/
+theorem layEnd_take_le (lang : Lang) (n : NodeRef) (pid nk : Nat) : ∀ (kids : List Tree) (pos : Length) (si k j : Nat) (rc : RawChild),
+    (rawChildren.go lang n pid nk kids pos si k)[j]? = some rc → layEnd (kids.take j) pos.bytes k ≤ rc.node.start.bytes
+  | [], _, _, _, _, _, h => by simp [rawChildren.go] at h
+  | c :: rest, pos, si, k, j, rc, h => by
+    cases j with
+    | zero =>
+      have := (go_elem lang n pid nk (c :: rest) pos si k 0 rc h).1
+      simpa [layEnd] using this
+    | succ j' =>
+      rw [go_getElem_zero] at h
+      simp only [List.getElem?_cons_succ] at h
+      have := layEnd_take_le lang n pid nk rest _ _ _ j' rc h
+      simp only [List.take_succ_cons, layEnd]
+      simp only [length_add_bytes] at this
+      by_cases hk : k > 0
+      · simpa [hk, length_add_bytes] using this
+      · simpa [hk] using this
+
+/-- **psZwOK_of_nonempty.**  For a NON-EMPTY `self` the position hypothesis of `prev_sibling_spec_general`
+is a consequence of the layout (`Sized`): everything before `self` ends before `self` ends, and every
+ancestor ends at or after it while `self` has bytes. -/
+theorem psZwOK_of_nonempty (lang : Lang) (fuel : Nat) (self : NodeRef) (hne : self.startByte < self.endByte) :
+    ∀ (q : List Nat) (n : NodeRef), Sized n.t → nodeAt lang n q = some self → psZwOK lang fuel self n q = true
+  | [], _, _, _ => rfl
+  | k :: rest, n, hs, hat => by
+    obtain ⟨rc, hk, hat'⟩ := nodeAt_cons lang n self k rest hat
+    have hn := raw_child_nested lang n hs k rc hk
+    have hd := nodeAt_nested lang rest rc.node self hn.2.2.2 hat'
+    simp only [psZwOK, hk, Bool.and_eq_true]
+    have hk2 := hk
+    simp only [rawChildren] at hk2
+    have hle := layEnd_take_le lang n _ _ _ _ _ _ k rc hk2
+    refine ⟨?_, ?_⟩
+    · have := passInL_of_lt fuel self (n.t.kids.take k) n.start.bytes 0
+        (by
+          obtain ⟨t, al, id, st⟩ := n
+          obtain ⟨d, kids⟩ := t
+          unfold Sized at hs
+          exact sizedL_take _ k hs.2)
+        (by simp only [NodeRef.startByte] at hd hne; omega)
+      simpa using this
+    · cases rest with
+      | nil => simp
+      | cons k' rest' =>
+        simp only [List.isEmpty_cons, Bool.false_or, Bool.and_eq_true]
+        refine ⟨?_, psZwOK_of_nonempty lang fuel self hne (k' :: rest') rc.node hn.2.2.2 hat'⟩
+        simp only [posStop, Bool.or_eq_true, decide_eq_true_eq, Bool.and_eq_true, beq_iff_eq, Bool.not_eq_true', beq_eq_false_iff_ne, ne_eq]
+        by_cases hgt : rc.posAfter.bytes > self.endByte
+        · exact Or.inl hgt
+        · refine Or.inr ⟨by omega, Or.inl ?_⟩
+          simp only [Tree.totalBytes, NodeRef.startByte, NodeRef.endByte] at hne ⊢
+          omega
+
+/-- `prev_sibling_spec_partial` as an instance of the general theorem: for a non-empty `self` only the
+slot-id hypothesis `psPathOK` remains. -/
+theorem prev_sibling_spec_of_general (lang : Lang) (fuel : Nat) (root self P : NodeRef) (q : List Nat) (ps : Option Nat)
+    (hpar : nodeParent lang fuel root self = some P) (hq : q ≠ []) (hf : P.t.size ≤ fuel + 1)
+    (hs : Summarized lang P.t) (hsh : shapeOK ps P.t = true) (hat : nodeAt lang P q = some self)
+    (hself : self.startByte < self.endByte) (hok : psPathOK lang self P q = true) :
+    (prevSiblingPort lang fuel root self true).map (fun r => (r.t, r.alias)) = (earlierOnPath lang P q).getLast? :=
+  prev_sibling_spec_general lang fuel root self P q ps hpar hq hf hs hsh hat hok
+    (psZwOK_of_nonempty lang fuel self hself q P (sized_of_summarized lang P.t hs) hat)
+
 /-! ### `ts_node__next_sibling`, EMPTY `self` -/
 
 /-- The child scan / outer loop of `ts_node__next_sibling(self, true)` for an empty `self`
